@@ -45,19 +45,19 @@ type blockCand struct {
 }
 
 type phiCand struct {
-	desc string
-	mk   func(x lin) constraint // candidate with the phi's value replaced by x
+	desc  string
+	mk    func(x lin) constraint // candidate with the phi's value replaced by x
 	alive bool
 }
 
 type boundsProver struct {
 	resMemo  map[string]int
 	trueMemo map[*ssa.Function][]*cmpSummary
-	p    *Prog
-	eng  *Engine
-	eff  *Effects
-	fns  map[*ssa.Function]*fnBounds
-	cand map[string]bool // global candidates alive: "inv|T|f>=0", "inv|T|f<=len:g", "post|fn|f", "pre|fn|f|argidx"
+	p        *Prog
+	eng      *Engine
+	eff      *Effects
+	fns      map[*ssa.Function]*fnBounds
+	cand     map[string]bool // global candidates alive: "inv|T|f>=0", "inv|T|f<=len:g", "post|fn|f", "pre|fn|f|argidx"
 	// nilMods: fields possibly written on paths to a return whose value may be nil
 	nilMods map[*ssa.Function]map[fieldKey]bool
 	log     []string
